@@ -219,6 +219,20 @@ theorem C02_analysis_ext_irrelevant (env : Env) (e : Ext) (input : Str) (evs : L
     parseEvents (env.withExt e) input evs = parseEvents env input evs :=
   parseEvents_extX env e input evs h
 
+/-- a converter that knows the time unit `min` only -/
+def C02.env : Env :=
+  ⟨toyCharSpec, ⟨0⟩, fun u => if u = ['m','i','n'] then some 0 else none, fun _ _ => .ok, fun c => [c], 0⟩
+
+/-- the premise is satisfiable beyond the partial theorem's: `>> servings: two`, the text
+    `Add 2 eggs.` (a digit, but `eggs.` is no unit), the timer `~{5%min}`, the reference `&eggs`
+    without quantity -/
+example : ([.metadata (Text.fromStr ['s','e','r','v','i','n','g','s'] 3) (Text.fromStr ['t','w','o'] 13),
+    .text (Text.fromStr ['A','d','d',' ','2',' ','e','g','g','s','.'] 17),
+    .timer ⟨⟨none, some ⟨⟨⟨⟨.number (.regular 5), ⟨30, 31⟩⟩, none⟩, some (Text.fromStr ['m','i','n'] 32)⟩, ⟨30, 35⟩⟩⟩, ⟨28, 36⟩⟩,
+    .ingredient ⟨⟨⟨⟨Modifiers.REF⟩, ⟨40, 41⟩⟩, none, Text.fromStr ['e','g','g','s'] 41, none, none, none⟩, ⟨39, 45⟩⟩] :
+      List (Ev Rat)).all (evCoreX Rat C02.env) = true := by
+  decide
+
 /-- the premise of the partial theorem (no ASCII digit in texts) implies the new one for texts -/
 theorem C02_textCore_weaker (env : Env) (t : Text) (h : textCore t = true) : textCoreX α env t = true :=
   textCoreX_of_textCore env t h
